@@ -1277,6 +1277,7 @@ func genC19Op(rt *rapid.T, m *c19Machine) c19Op {
 			{b.total().String(), "balance"}, {c19AddStr(b.total(), 1), "balance+1"},
 			{supply.String(), "supply"}, {c19Two64, "2^64"}, {c19Two128, "2^128"},
 			{"-1", "negative"}, {"-300", "negative"}, {"abc", "malformed"}, {"", "empty"}, {"1.5", "malformed"},
+			{" " + b.avail().String(), "decorated"}, {"+" + c19AddStr(b.avail(), 1), "decorated"}, {"007", "decorated"}, {"5\n", "decorated"},
 		}
 		c := cands[rapid.IntRange(0, len(cands)-1).Draw(rt, "amount")]
 		return c19Op{Op: "transfer", By: by, To: to, Amount: c.amt, Note: c.note}
@@ -1297,6 +1298,12 @@ func genC19Op(rt *rapid.T, m *c19Machine) c19Op {
 		}
 		cands = append(cands, av.String(), strconv.Itoa(rapid.IntRange(2, 1500).Draw(rt, "small")), "1", "0",
 			c19AddStr(av, 1), c19Two64, "-1", "abc")
+		// decorated decimals (round-7 change C19-k: one site of a call chain trims blanks, the next parses the raw
+		// argument): whatever the contracts make of such an amount, what a vote locks is what its release unlocks
+		if rapid.IntRange(0, 5).Draw(rt, "decorated") == 0 {
+			base := cands[rapid.IntRange(0, len(cands)-3).Draw(rt, "decobase")]
+			cands = []string{" " + base, "\t" + base, base + "\n", base + " ", "+" + base, "00" + base, "\n" + base}
+		}
 		return c19Op{Op: "vote", By: by, Prop: prop, Amount: c19Pick(rt, "amount", cands)}
 	case kind < 64: // propose
 		by := c19PickBy(rt, m, func(b *c19Bal) bool { return c19AvailOrd(b).Cmp(big.NewInt(1000)) >= 0 }, 8)
